@@ -91,7 +91,7 @@ def contract(cfg: Dict[str, Any], events: List[List[Any]], status: str) -> List[
         px = parent[x - 1]
         elder = [y for y in range(2, x) if parent[y - 1] == px]
         visited[x] = (visited[px] and prune[px - 1] not in ("SkipChildren", "SkipNode")
-                      and not any(visited[s] and prune[s - 1] == "SkipSiblings" for s in elder))
+                      and not any(visited[s] and prune[s - 1] in ("SkipSiblings", "DepartSkipSiblings") for s in elder))
     if any(seen("main", "visit", x) != visited[x] for x in range(1, n + 1)):
         bad.append("PruningMeans")
     return bad
@@ -121,11 +121,13 @@ def run_real(cfg: Dict[str, Any]) -> Tuple[List[List[Any]], str]:
         def visit_Nd(self, ob):
             events.append(["main", "visit", ob.i])
             k = prune[ob.i - 1]
-            if k != "none":
+            if k not in ("none", "DepartSkipSiblings"):
                 raise getattr(self, k)()
 
         def depart_Nd(self, ob):
             events.append(["main", "depart", ob.i])
+            if prune[ob.i - 1] == "DepartSkipSiblings":
+                raise self.SkipSiblings()
 
     def mk(tag: str):
         class E(V.VisitorExt):  # type: ignore[type-arg]
@@ -246,6 +248,8 @@ def observe_builder(source: str, exts: List[str]) -> Dict[str, Any]:
         system.processModule(mod)
     except V.Visitor._TreePruningException:
         status = "escaped"
+    except Exception as e:                           # the walk itself aborted: nodes entered are never left
+        status = "aborted:" + type(e).__name__ + ": " + str(e)[:80]
     finally:
         V._BaseVisitor.visit, V._BaseVisitor.depart = base_visit, base_depart
         astbuilder.ASTBuilder.processModuleAST = orig_pm
@@ -274,7 +278,10 @@ def builder_states_of_package(path) -> List[Tuple[str, Tuple[int, bool, bool]]]:
         system = model.System()
         b = system.systemBuilder(system)
         b.addModule(path)
-        b.buildModules()
+        try:
+            b.buildModules()
+        except Exception:
+            pass                      # the walk of some module aborted: its recorded state shows the scopes left open
     finally:
         astbuilder.ASTBuilder.processModuleAST = orig_pm
         model.System.msg = orig_msg
@@ -359,7 +366,10 @@ def run(ctx: Ctx) -> int:
     corner = ["", '"""only a docstring"""\n', "# just a comment\n", "pass\n", '"""doc"""\nimport os\n', 'x = 1\n"""attr doc"""\n',
               "if __name__ == '__main__':\n    def f(): pass\n", "class C:\n    pass\n", "def f():\n    def g(): pass\n    class K: pass\n",
               "class C:\n    @property\n    def p(self): return 1\n    @p.setter\n    def p(self, v): pass\n",
-              "from typing import overload\n@overload\ndef f(a: int) -> int: ...\n@overload\ndef f(a: str) -> str: ...\ndef f(a): return a\n"]
+              "from typing import overload\n@overload\ndef f(a: int) -> int: ...\n@overload\ndef f(a: str) -> str: ...\ndef f(a): return a\n",
+              # expression statements whose value has a `body` that is an expression, not a statement list
+              "class Plugin:\n    register() if enabled else None\n    def m(self): pass\n", "class Holder:\n    lambda: 0\n    x = 1\n",
+              "a if b else c\nlambda x: (yield)\n", "class K:\n    [i for i in ()]\n    {1: 2}\n    (a := 1)\n    await_ = 1\n"]
     for i in range(nmod + len(corner)):
         src = corner[i] if i < len(corner) else pygen.gen_module(rng, depth=3, max_stmts=3)
         try:
@@ -371,6 +381,10 @@ def run(ctx: Ctx) -> int:
             exts.remove("B2")
         o = observe_builder(src, exts)
         o["src"] = src
+        if o["status"].startswith("aborted"):
+            ctx.violation({"invariant": "WalkCompletes", "origin": "astbuilder", "input": src, "observed": {"status": o["status"], **o["stack"]},
+                           "key": "aborted:" + o["status"][:60]})
+            continue
         if o["cfg"]["n"] > 45:
             continue
         obs.append(o)
@@ -435,7 +449,8 @@ def run(ctx: Ctx) -> int:
     if obs and not all(nc.values()):
         raise MachineryError(f"negative control failed: {nc}")
     ctx.assumptions += [
-        "pruning exceptions are raised by the MAIN visitor's visit_* only (the property's quantifier)",
+        "pruning exceptions are raised by the MAIN visitor's visit_* methods, and SkipSiblings also by its depart_* methods; the other "
+        "exceptions have no meaning at departure time",
         "calls made through NodeVisitor.generic_visit() from inside a visit_* method are helper calls outside the walk",
         "TLC explores every tree <= MaxN nodes; larger trees only through the real ASTBuilder on generated modules",
     ]
@@ -457,8 +472,8 @@ def replay(ctx: Ctx, path: str) -> int:
             f.write_text(text)
         bad = ["StackEmptyAfterModule"] if any(st != (0, True, True) for _, st in builder_states_of_package(d / "pk")) else []
     elif w.get("origin") == "astbuilder" and "input" in w:
-        o = observe_builder(w["input"], w["cfg"]["exts"])
-        bad = contract(o["cfg"], o["events"], o["status"])
+        o = observe_builder(w["input"], w.get("cfg", {}).get("exts", []))
+        bad = ["WalkCompletes"] if o["status"].startswith("aborted") else contract(o["cfg"], o["events"], o["status"])
         if o["stack"].get("stack") != 0 or not o["stack"].get("current_is_none"):
             bad.append("StackEmptyAfterModule")
     else:
